@@ -509,9 +509,38 @@ func partialMedium(c *Ctx) {
 			}
 		}
 	}
+	// aligned-union family with undo: [add N remembering all | even slots][delete a union of up to
+	// two (thorough: three) disjoint aligned blocks, add k][undo]
+	auNs, parts := []int{11, 12}, 2
+	if c.Thorough() {
+		auNs, parts = []int{11, 12, 13, 16}, 3
+	}
+	c.Cov.Bound["aligned_unions.N"] = fmt.Sprint(auNs)
+	for _, N := range auNs {
+		var all, evens []int
+		for i := 0; i < N; i++ {
+			all = append(all, i)
+			if i%2 == 0 {
+				evens = append(evens, i)
+			}
+		}
+		for _, S := range alignedUnions(N, parts) {
+			for _, R := range [][]int{all, evens} {
+				for _, k := range []int{0, 1, 2} {
+					kr := make([]int, k)
+					for i := range kr {
+						kr[i] = i
+					}
+					for _, tr := range trs {
+						jobs = append(jobs, job{tr, []Op{{Kind: "block", Adds: N, Rem: R}, {Kind: "block", Dels: S, Adds: k, Rem: kr}, {Kind: "undo"}}})
+					}
+				}
+			}
+		}
+	}
 	var steps, evals int64
 	ok := parallelFor(c, len(jobs), func(i int) {
-		fam := &PartialFamily{Nmax: 64, TR: jobs[i].tr, Prop: "C09"}
+		fam := &PartialFamily{Nmax: 64, TR: jobs[i].tr, UndoBud: 1, Prop: "C09"}
 		n, _ := fam.Root()
 		// only the last two steps are new with respect to the shared prefix; Step re-checks each
 		for _, op := range jobs[i].hist {
